@@ -89,6 +89,44 @@ theorem wfl_stepLayer (l : Layer) (h : WFL l) (op : Op) : WFL (stepLayer l op).1
   | breakToml n => simpa [stepLayer, WFL] using h
   | restore => exact h
 
+theorem writeOk_noref (l : Layer) (op : Op) : writeOk l l op .noref = true := by
+  cases op <;> simp [writeOk, layerEq_refl]
+
+theorem writeOk_stepLayer (l : Layer) (op : Op) (hreq : isRequest op = false) :
+    writeOk l (stepLayer l op).1 op (stepLayer l op).2.1 = true := by
+  cases op with
+  | wmeta n m =>
+    simp only [stepLayer, writeMeta, replaceMeta]
+    cases htm : l.toml with
+    | none => simp [writeOk]
+    | some tm => cases tm <;> simp [writeOk, htm, optBeq_refl]
+  | wsbom n sb =>
+    simp only [stepLayer, replaceSboms]
+    cases hd : l.dir <;> simp [writeOk, hd, optBeq_refl]
+  | wenv n ins =>
+    simp only [stepLayer, writeEnv]
+    split
+    · simp [writeOk]
+    · split <;> simp [writeOk]
+  | wexecd n ps =>
+    simp only [stepLayer, replaceExecd]
+    split
+    · simp [writeOk]
+    · split
+      · simp [writeOk]
+      · split
+        · simp [writeOk]
+        · split <;> simp [writeOk]
+  | wfile n f b =>
+    simp only [stepLayer, writeFile]
+    split
+    · simp [writeOk]
+    · split <;> simp [writeOk]
+  | cached => simp [isRequest] at hreq
+  | uncached => simp [isRequest] at hreq
+  | breakToml n => simp [writeOk, stepLayer]
+  | restore => simp [writeOk, stepLayer]
+
 theorem othersUntouched_refl (names : List Bytes) (s : Store) (n : Bytes) : othersUntouched names s s n = true := by
   simp [othersUntouched, layerEq_refl]
 
@@ -141,7 +179,7 @@ theorem step_ok (names : List Bytes) (s : St) (op : Op) (hwf : WFS s.store) :
   | wfile n f b => exact step_write names s _ n rfl rfl hwf
   | breakToml n =>
     refine ⟨?_, ?_⟩
-    · simp [step, Op.name, isWrite, stepOk, othersUntouched_set]
+    · simp [step, Op.name, isWrite, stepOk, othersUntouched_set, writeOk, stepLayer]
     · simp only [step, Op.name, isWrite, Bool.false_and, Bool.false_eq_true, if_false]
       exact wfs_set hwf _ _ (wfl_stepLayer _ (hwf n) _)
 where
@@ -151,7 +189,9 @@ where
     cases op <;> simp only [Op.name, Option.some.injEq, reduceCtorEq, isRequest, Bool.true_eq_false] at hn hreq <;> subst hn <;>
     · simp only [step, Op.name]
       split
-      · exact ⟨by simp [stepOk, Op.name, othersUntouched_refl], hwf⟩
-      · exact ⟨by simp [stepOk, Op.name, othersUntouched_set], wfs_set hwf _ _ (wfl_stepLayer _ (hwf _) _)⟩
+      · exact ⟨by simp [stepOk, Op.name, othersUntouched_refl, writeOk_noref], hwf⟩
+      · refine ⟨?_, wfs_set hwf _ _ (wfl_stepLayer _ (hwf _) _)⟩
+        simp only [stepOk, Op.name, othersUntouched_set, Bool.true_and, sget_eq, Store.get_set_eq]
+        exact writeOk_stepLayer _ _ (by simp [isRequest])
 
 end CnbVerif
